@@ -157,11 +157,12 @@ def apply_overlay(scratch):
             with open(ppath, "a") as fh:
                 fh.write("\n" + MOD_LINE)
             appended.append((parent, MOD_LINE.strip()))
-        elif base == "verif_spec.rs":
+        elif base in ("verif_spec.rs", "verif_models.rs"):
             ppath = os.path.join(repo, os.path.dirname(rel), "lib.rs")
+            line = "#[cfg(kani)] pub(crate) mod %s;\n" % base[:-3]
             with open(ppath, "a") as fh:
-                fh.write("\n" + SPEC_LINE)
-            appended.append((os.path.relpath(ppath, repo), SPEC_LINE.strip()))
+                fh.write("\n" + line)
+            appended.append((os.path.relpath(ppath, repo), line.strip()))
     # The one *prepended* line: a nightly feature gate needed by the Display
     # harness (core::fmt::Formatter::new).  Inner attributes must come first.
     lib = os.path.join(repo, CRATE, "src", "lib.rs")
